@@ -324,6 +324,14 @@ func (p *Parser) parseString() (core.Object, error) {
 				result.WriteByte(c)
 			}
 			p.pos++
+		} else if c == '\r' {
+			// An unescaped end-of-line marker reads as a single LF, whether
+			// it is CR, LF or CR LF (ISO 32000-1 7.3.4.2)
+			p.pos++
+			if p.pos < len(p.data) && p.data[p.pos] == '\n' {
+				p.pos++
+			}
+			result.WriteByte('\n')
 		} else {
 			result.WriteByte(c)
 			p.pos++
